@@ -1,3 +1,4 @@
+mod binbox;
 mod e1;
 mod explore;
 mod graphs;
@@ -50,6 +51,15 @@ fn run_check(id: &str) -> i32 {
                 "C11" => e1::check_c11(&mut rep),
                 "C17" => e1::check_c17(&mut rep),
                 _ => e1::check_c20(&mut rep),
+            }
+            rep.finish()
+        }
+        "C12" | "C18" => {
+            let mut rep = Report::new(id, "model_checking");
+            if id == "C12" {
+                binbox::check_c12(&mut rep)
+            } else {
+                binbox::check_c18(&mut rep)
             }
             rep.finish()
         }
